@@ -32,13 +32,6 @@ COMP = "huffman"
 TRACE_MOD, TRACE_CFG = "HuffmanTrace.tla", "HuffmanTrace.cfg"
 
 
-def segment_of(events, idx):
-    """Replay segment: the table in force and the rejected event."""
-    if events[idx]["e"] == "table":
-        return idx, idx + 1
-    return idx, idx + 1
-
-
 def table_before(events, idx):
     a = idx
     while a > 0 and events[a]["e"] != "table":
@@ -69,12 +62,6 @@ def prepare_spec(ctx):
     return sd
 
 
-def with_table(events_all, seg_events, idx):
-    """Replay object: the table event in force followed by the segment."""
-    t = table_before(events_all, idx)
-    return [t] + [e for e in seg_events if e is not t]
-
-
 def judge(ctx, sd, path, label, timeout):
     """judge_trace with huffman specifics: the table in force is put in front of every replay
     segment, and a cut segment that is a table event takes its dependent events with it."""
@@ -94,7 +81,6 @@ def judge(ctx, sd, path, label, timeout):
     def report(key, message, replay_obj):
         if isinstance(replay_obj, dict) and "rejected" in replay_obj and replay_obj["rejected"].get("e") != "table":
             rej = replay_obj["rejected"]
-            tabs = [e for e in events_all if e["e"] == "table"]
             # the table in force: the last table event before the rejected event in the original trace
             pos = next((i for i, e in enumerate(events_all) if e is rej or e == rej), 0)
             replay_obj = dict(replay_obj, events=[table_before(events_all, pos)] + replay_obj["events"])
